@@ -250,6 +250,14 @@ fn run_history(ctx: &mut Ctx, ops: &[Op], exit_how: (u8, u8), fl: &Flags, class:
         }
     };
     let pid = kid.pid;
+    // descriptor exhaustion: in part of the cases no further descriptor can be had (EMFILE) from here on - whichever
+    // way a status query might want one (a pidfd, say), what it reports is still the truth
+    if ops.len() % 3 == 1 {
+        for kind in [k::PIDFD_OPEN, k::OPEN, k::DUP] {
+            crate::plan::add(crate::plan::Rule { kind, scope: crate::plan::SCOPE_PARENT, nth: 0, fd: -1, act: crate::plan::ACT_FAIL, val: libc::EMFILE as i64, prob: 1000 });
+        }
+        ctx.count("histories_under_descriptor_exhaustion", 1);
+    }
     // sleeps of wait_timeout cost no wall time (pure virtual clock, no jitter)
     crate::vclock::enable_pure(2, 0, 1, 1000, 0);
     let mut truth = Truth::Running;
